@@ -56,6 +56,38 @@ def run(E: Engine, rep: Report, tier: str) -> dict:
                 ok = True
     rep.check(ok, "GUARD", "BaseDevice._validate_atom_distance.invalid_dists|either-condition-rejects", "too-close OR coincident rejects", "the two distance conditions are no longer combined with a logical OR", E.where(inv))
     rep.floor("GUARD", 10)
+    # round 5 (independent audit): the number of qubits a layout may hold is decided on the filling FRACTION, not on the
+    # bare truncated float product int(n_traps * max_layout_filling) -- 50 * 0.58 is 28.999999999999996
+    from .. import sym as _sym
+    from .symutil import S as _Sg5, is_ as _isg5, mentions as _mg5, sh as _shg5
+
+    n_cap = 0
+    for fq_ in (DEV + ".validate_layout_filling", DEV + ".__post_init__"):
+        f5 = E.fn(fq_)
+        for l in _Sg5(E, f5).logged("raise"):
+            for x in _sym.conj_of(l.cond):
+                if x[0] != "cmp" or x[1] not in ("Lt", "Gt", "LtE", "GtE"):
+                    continue
+                for side in (x[2], x[3]):
+                    if not (_mg5(side, "max_layout_filling") and any(t[0] == "call" and t[1] == ("name", "int") for t in _sym.subterms(side))):
+                        continue
+                    n_cap += 1
+                    bare = _isg5(side, "int(Q_a * Q_b)") is not None
+                    rep.check(not bare, "GUARD", f"{f5.short}|layout-capacity-not-a-truncated-float-product", "the capacity is corrected against the filling fractions (not just int(n_traps * max_layout_filling))",
+                              f"{f5.short} takes the layout's capacity as `{_shg5(side, 80)}`: products such as 50 * 0.58 = 28.999999999999996 or 90 * 0.7 = 62.99999999999999 truncate to one qubit less than the filling allows, so a register exactly at the maximum filling (and the automatic layout of a valid register) is refused, and some valid device parameter combinations cannot be constructed", E.where(f5, l.node))
+    # the radial check allows for the precision coordinates are kept with: layouts (and the registers defined from them,
+    # e.g. by with_automatic_layout) hold coordinates rounded to COORD_PRECISION decimals, which moves a point at the
+    # maximum radius outward by up to ~0.7e-6 -- an exact `norm > R` makes the device reject its own automatic layout
+    vrd = E.fn(DEV + "._validate_radial_distance") if (DEV + "._validate_radial_distance") in E.P.functions else E.fn(DEV + "._validate_coords")
+    tol = False
+    for l in _Sg5(E, vrd).log:
+        for v_ in (l.value, l.cond):
+            for t in _sym.subterms(v_) if v_ is not None else ():
+                if t[0] == "cmp" and t[1] in ("Gt", "Lt", "GtE", "LtE") and _mg5(t, "max_radial_distance") and _mg5(t, "COORD_PRECISION"):
+                    tol = True
+    rep.check(tol, "GUARD", "BaseDevice._validate_radial_distance|tolerance-of-the-coordinate-precision", "`norm - max_radial_distance > 10 ** (-COORD_PRECISION)`", "the radial distance is compared with max_radial_distance exactly, while layouts hold coordinates rounded to COORD_PRECISION decimals: an atom at the maximum radius lands up to 0.7e-6 um outside once it sits on a layout, so the register with_automatic_layout(device) returns for a valid register is rejected by that same device (the distance check already allows 1e-6)", E.where(vrd))
+    if n_cap < 2:
+        raise AnalysisError(f"anchor: the layout-capacity comparisons (validate_layout_filling, __post_init__) were found {n_cap} time(s), expected 2")
 
     # ------------------------------------------------------------- NONE
     fns = [f for f in P.all_functions() if f.module.name.startswith(("pulser.devices", "pulser.register", "pulser_simulation.hamiltonian"))]
@@ -241,5 +273,23 @@ def run(E: Engine, rep: Report, tier: str) -> dict:
     for par, need in wiring.items():
         ok = all((a_ := _arg12(l, -1, par)) is not None and _sym.contains(a_, _sym.Pattern(f"device.{need}").term) and not any(_sym.contains(a_, _sym.Pattern(f"device.{o}").term) for o in wiring.values() if o != need) for l in gcalls)
         rep.check(ok, "CLOSURE", f"Register.with_automatic_layout|uses-device.{need}", f"generate_trap_coordinates({par}=...) carries device.{need}", f"with_automatic_layout no longer hands device.{need} to the generator's `{par}`: {[_sh(_arg12(l, -1, par), 60) if _arg12(l, -1, par) is not None else 'absent' for l in gcalls]}", E.where(wal))
-    rep.floor("CLOSURE", 7)
+    # the other device-aware constructor: what max_connectivity returns has been handed to device.validate_register (the
+    # atom number and the spacing are checked by hand, the radius is not)
+    mc_f = E.fn("pulser.register.register.Register.max_connectivity")
+    Smc = _S(E, mc_f)
+    rets_ = [l for l in Smc.logged("return") if l.fn == mc_f.short and l.value is not None]
+    vcalls = [l for l in Smc.log if l.kind == "call" and l.value[1][0] == "attr" and l.value[1][2] == "validate_register" and l.value[2]]
+    from .symutil import unobj as _unmc
+
+    ok_mc = bool(rets_) and all(any(_unmc(v.value[2][0]) == _unmc(r_.value) for v in vcalls) for r_ in rets_)
+    rep.check(ok_mc, "CLOSURE", "Register.max_connectivity|result-validated-by-the-device", "device.validate_register(<the returned register>)", "max_connectivity returns a register it never validated against the device: it checks the number of atoms and the spacing but not the maximum radial distance, so e.g. 80 atoms at 9 um on AnalogDevice (41.24 um of 38) are returned and then rejected by that device", E.where(mc_f))
+    # offenders are reported under the IDs they have in the register (not their str()): with int IDs '2' is not an ID
+    # of the register, and with mixed IDs it names another atom
+    vco = E.fn(DEV + "._validate_coords")
+    sub_calls = [l for l in _S(E, vco, inline=False).log if l.kind == "call" and l.value[1][0] == "attr" and l.value[1][2] in ("_validate_atom_distance", "_validate_radial_distance") and l.value[2]]
+    if not sub_calls:
+        raise AnalysisError("anchor: _validate_coords no longer hands ids to the distance / radius checks")
+    strd = [l for l in sub_calls if any(t[0] == "call" and t[1] == ("name", "str") for t in _sym.subterms(l.value[2][0]))]
+    rep.check(not strd, "SIB", "_validate_coords|offenders-keep-their-ids", "the ids handed to the checks are the mapping's keys themselves", "_validate_coords stringifies the ids before the checks fill RadiusError.invalid / DistanceError.invalid: an int ID 2 is reported as '2' (not an ID of the register) and with Register({'1': ..., 1: ...}) the report names the valid atom", E.where(vco))
+    rep.floor("CLOSURE", 8)
     return {"functions_analysed": len(fns), "none_rule": st}
